@@ -40,11 +40,15 @@ package builder
 // Parser invariant
 // ======================================================================================
 
-//@ pred Ctx(p *parser) bool = p != nil && p.errs != nil && p.Stats != nil
+//@ pred Ctx(p *parser) bool = Ctx0(p) && RulesOK(p)
+// Ctx0: the part of the parser invariant that already holds for a freshly created parser
+//@ pred Ctx0(p *parser) bool = p != nil && p.errs != nil && p.Stats != nil
 //@   | && (forall k int :: 0 <= k && k < len(p.rstack) ==> p.rstack[k] != nil)
 //@   | && (forall k int :: 0 <= k && k < len(p.vstack) ==> p.vstack[k] != nil)
 //@   | && (forall k int :: 0 <= k && k < len(p.recoveryStack) ==> p.recoveryStack[k] != nil)
-//@   | && RulesOK(p) && DbgOK(p) && FramesOK(p) && RecOK(p)
+//@   | && DbgOK(p) && FramesOK(p) && RecOK(p) && ErrsTyped(*p.errs)
+// every recorded error is a *parserError (C11)
+//@ pred ErrsTyped(e errList) bool = forall k int :: {e[k]} 0 <= k && k < len(e) ==> is(e[k], "*parserError") && as(e[k], "*parserError") != nil
 // every slot of the variable stack (stale ones up to the capacity included) is nil or an allocated map
 //@ pred FramesOK(p *parser) bool = forall k int :: {p.vstack[k]} 0 <= k && k < cap(p.vstack) ==> (p.vstack[k] == nil || alloc(p.vstack[k]))
 // recovery maps are allocated, are never variable-stack slots, and hold grammar nodes
@@ -61,6 +65,10 @@ package builder
 
 // The rules table maps exactly the defined rule names, each to a rule carrying that name.
 //@ spec func defined(name string) bool
+// the grammar literal g: its rules are non-nil, there is at least one (emitted by builder.writeGrammar)
+//@ axiom wf-grammar: g != nil && len(g.rules) >= 1 && forall k int :: {g.rules[k]} 0 <= k && k < len(g.rules) ==> g.rules[k] != nil
+//@ axiom defined-intro: forall k int :: {g.rules[k]} 0 <= k && k < len(g.rules) ==> defined(g.rules[k].name)
+//@ axiom defined-elim: forall n string :: {defined(n)} defined(n) ==> exists k int :: 0 <= k && k < len(g.rules) && g.rules[k].name == n
 //@ pred RulesOK(p *parser) bool = forall n string :: {has(p.rules, n)} (has(p.rules, n) == defined(n)) && (has(p.rules, n) ==> p.rules[n] != nil && p.rules[n].name == n)
 
 // Stack equalities (slices are compared by length and elements, not by capacity).
@@ -229,7 +237,7 @@ package builder
 //@ pred ErrsKept(a errList, b errList) bool = len(a) >= len(b) && forall k int :: 0 <= k && k < len(b) ==> a[k] == b[k]
 
 //@ func (p *parser) addErrAt(err error, pos position, expected []string)
-//@   requires [ctx] Ctx(p)
+//@   requires [ctx] Ctx0(p)
 //@   modifies *p.errs
 //@   ensures [len C11] len(*p.errs) == old(len(*p.errs)) + 1
 //@   ensures [prefix C11] ErrsKept(*p.errs, old(*p.errs))
@@ -240,7 +248,7 @@ package builder
 //@   frame C18
 
 //@ func (p *parser) addErr(err error)
-//@   requires [ctx] Ctx(p)
+//@   requires [ctx] Ctx0(p)
 //@   modifies *p.errs
 //@   ensures [len C11 C17] len(*p.errs) == old(len(*p.errs)) + 1
 //@   ensures [prefix C11] ErrsKept(*p.errs, old(*p.errs))
@@ -254,7 +262,7 @@ package builder
 // ======================================================================================
 
 //@ func (p *parser) read()
-//@   requires [ctx] Ctx(p)
+//@   requires [ctx] Ctx0(p)
 //@   requires [not-eof C01 C02 C17] IsInitPt(p.pt) || (SP(p.data, p.pt) && p.pt.w > 0)
 //@   modifies p.pt, *p.errs
 //@   ensures [sp C02 C17] SP(p.data, p.pt)
@@ -618,7 +626,7 @@ package builder
 //@ func (p *parser) parseRuleMemoize(rule *rule) (val any, ok bool)
 //@   requires [inv] Inv(p) && rule != nil
 //@   modifies PS
-//@   panics [any] true
+//@   panics [ctx C11] Ctx0(p)
 //@   ensures [inv C01] Inv(p)
 //@   ensures [peg-rule C01 C06] DR(rule, p.data, old(p.pt.offset), ok, p.pt.offset, val)
 //@   ensures [shape C01 C06] Shape(p, val, ok)
@@ -632,6 +640,120 @@ package builder
 //@ #endif
 
 
+
+// ======================================================================================
+// Entry: newParser, options, rules table, parse (C01, C11, C16, C18)
+// ======================================================================================
+
+// message of an error value (error.Error is assumed pure)
+//@ spec func errMsg(e error) string
+//@ extern error.Error(e error) (m string)
+//@   pure
+//@   ensures m == errMsg(e)
+//@ func (p *parserError) Error() (m string)
+//@   requires [ctx] p != nil && p.Inner != nil
+//@   pure
+//@   safety C11
+
+// KeptE(o, j, a, n): a[0..n) are the elements of o[0..j) whose message occurs for the first time, in order.
+//@ spec func KeptE(o errList, j int, a arr[int]error, n int) bool
+//@ pred FirstMsg(o errList, j int) bool = forall i int :: 0 <= i && i < j ==> errMsg(o[i]) != errMsg(o[j])
+//@ axiom kepte-base: forall o errList, a arr[int]error :: {KeptE(o, 0, a, 0)} KeptE(o, 0, a, 0)
+//@ axiom kepte-take: forall o errList, j int, a arr[int]error, n int :: {KeptE(o, j, a, n)} KeptE(o, j, a, n) && 0 <= j && j < len(o) && FirstMsg(o, j) ==> KeptE(o, j + 1, store(a, n, o[j]), n + 1)
+//@ axiom kepte-skip: forall o errList, j int, a arr[int]error, n int :: {KeptE(o, j, a, n)} KeptE(o, j, a, n) && 0 <= j && j < len(o) && !FirstMsg(o, j) ==> KeptE(o, j + 1, a, n)
+
+// errors with identical messages are reported once, in order of first occurrence (C11)
+//@ func (e *errList) dedupe()
+//@   requires [nonnil] e != nil && forall k int :: 0 <= k && k < len(*e) ==> (*e)[k] != nil
+//@   modifies *e
+//@   ensures [first-occurrences C11] KeptE(old(*e), len(old(*e)), arr(*e), len(*e)) && off(*e) == 0
+//@   ensures [subset C11] forall k int :: {(*e)[k]} 0 <= k && k < len(*e) ==> exists j int :: 0 <= j && j < len(old(*e)) && (*e)[k] == old(*e)[j]
+//@   ensures [nonempty C11] len(old(*e)) > 0 ==> len(*e) > 0
+//@   loop#1 invariant [kept C11] *e == old(*e) && off(cleaned) == 0 && KeptE(*e, idx1, arr(cleaned), len(cleaned)) && set != nil
+//@     | && (forall m string :: {has(set, m)} has(set, m) == (exists i int :: 0 <= i && i < idx1 && errMsg((*e)[i]) == m))
+//@     | && (forall m string :: {has(set, m)} has(set, m) ==> set[m])
+//@     | && (forall k int :: {cleaned[k]} 0 <= k && k < len(cleaned) ==> exists j int :: 0 <= j && j < idx1 && cleaned[k] == (*e)[j])
+//@     | && (idx1 > 0 ==> len(cleaned) > 0)
+//@   safety C11
+
+//@ func (e errList) err() (res error)
+//@   requires [nonnil] forall k int :: 0 <= k && k < len(e) ==> e[k] != nil
+//@   ensures [nil-iff-empty C11] (res == nil) == (len(e) == 0)
+//@   ensures [typed C11] res != nil ==> is(res, "errList") && len(as(res, "errList")) > 0 && forall k int :: {as(res, "errList")[k]} 0 <= k && k < len(as(res, "errList")) ==> exists j int :: 0 <= j && j < len(e) && as(res, "errList")[k] == e[j]
+//@   safety C11
+
+//@ func listJoin(list []string, sep string, lastSep string) (s string)
+//@   pure
+//@   safety C11 C12
+
+// options are applied by user-supplied closures: they set option fields only (assumption)
+//@ extern Option(p *parser) (prev Option)
+//@   requires [ctx] Ctx0(p)
+//@ #if dbg
+//@   modifies p.maxExprCnt, p.entrypoint, p.allowInvalidUTF8, p.recover, p.Stats, p.choiceNoMatch, p.debug, p.memoize, all storeDict, all map[string]map[string]int
+//@ #else
+//@   modifies p.maxExprCnt, p.entrypoint, p.allowInvalidUTF8, p.recover, all storeDict
+//@ #endif
+//@   ensures [ctx] Ctx0(p) && StateOK(p)
+
+//@ func (p *parser) setOptions(opts []Option)
+//@   requires [ctx] Ctx0(p) && StateOK(p)
+//@ #if dbg
+//@   modifies p.maxExprCnt, p.entrypoint, p.allowInvalidUTF8, p.recover, p.Stats, p.choiceNoMatch, p.debug, p.memoize, all storeDict, all map[string]map[string]int
+//@ #else
+//@   modifies p.maxExprCnt, p.entrypoint, p.allowInvalidUTF8, p.recover, all storeDict
+//@ #endif
+//@   ensures [ctx] Ctx0(p) && StateOK(p)
+//@   loop#1 invariant [ctx] Ctx0(p) && StateOK(p)
+//@   safety C11
+//@   frame C18
+
+// FreshP: a parser as newParser creates it: positioned before the input, nothing recorded yet.
+//@ pred FreshP(p *parser) bool = Ctx0(p) && StateOK(p) && IsInitPt(p.pt) && len(*p.errs) == 0 && len(p.vstack) == 0 && len(p.rstack) == 0 && len(p.recoveryStack) == 0 && cap(p.vstack) == 0
+//@   | && !p.maxFailInvertExpected && p.maxFailPos.offset == 0 && len(p.maxFailExpected) == 0 && MemoFresh(p)
+//@ #if memo
+//@ pred MemoFresh(p *parser) bool = p.memo == nil
+//@ #else
+//@ pred MemoFresh(p *parser) bool = true
+//@ #endif
+
+// all mutable parse state lives in the per-call parser object, which is fresh (C18)
+//@ func newParser(filename string, b []byte, opts []Option) (p *parser)
+//@   requires [opts] true
+//@ #if dbg
+//@   modifies all storeDict, all map[string]map[string]int
+//@ #else
+//@   modifies all storeDict
+//@ #endif
+//@   ensures [fresh C18] fresh(p) && fresh(p.errs) && fresh(p.Stats) && fresh(p.cur.globalStore)
+//@   ensures [init C01 C18] FreshP(p) && p.data == b && p.filename == filename
+//@   ensures [budget C16] p.maxExprCnt > 0
+//@   safety C11
+//@   frame C18
+
+//@ func (p *parser) buildRulesTable(gr *grammar)
+//@   requires [ctx] p != nil && gr == g && gr != nil && forall k int :: {gr.rules[k]} 0 <= k && k < len(gr.rules) ==> gr.rules[k] != nil
+//@   modifies p.rules
+//@   ensures [table C01] RulesOK(p)
+//@   loop#1 invariant [acc C01] p.rules != nil && fresh(p.rules) && (forall n string :: {has(p.rules, n)} has(p.rules, n) == (exists k int :: 0 <= k && k < idx1 && g.rules[k].name == n)) && (forall n string :: {has(p.rules, n)} has(p.rules, n) ==> p.rules[n] != nil && p.rules[n].name == n)
+//@   safety C11
+//@   frame C18
+
+// parse: the top-level driver. Panics are contained iff Recover is on (C11); a panic becomes the
+// final error with a nil value; every returned error list is non-empty and typed.
+//@ func (p *parser) parse(gr *grammar) (val any, err error)
+//@   requires [fresh] FreshP(p) && gr == g
+//@   modifies PS, p.rules
+//@   panics [propagates-only-without-recover C11] !p.recover
+//@   ensures [typed C11] err != nil ==> is(err, "errList") && len(as(err, "errList")) > 0 && forall k int :: {as(err, "errList")[k]} 0 <= k && k < len(as(err, "errList")) ==> is(as(err, "errList")[k], "*parserError")
+//@   ensures [errs-iff C11 C17] (err == nil) == (len(*p.errs) == 0)
+//@   ensures [panic-is-error C11 C16 local] p.recover && e != nil ==> val == nil && err != nil
+//@   ensures [fail-is-error C12 local] !ok ==> val == nil && err != nil
+// the start rule is the rule named by the entrypoint; an unknown entrypoint is an error (C01)
+//@   before parser.parseRuleWrap assert [entry C01] startRule != nil && startRule.name == p.entrypoint && Inv(p) && p.pt.offset == 0
+//@   safety C11
+//@   frame C18
+
 // ======================================================================================
 // Left recursion (C08): seed growing in the leader, dispatch in parseRuleWrap
 // ======================================================================================
@@ -642,7 +764,7 @@ package builder
 //@ func (p *parser) parseRuleRecursiveLeader(rule *rule) (val any, ok bool)
 //@   requires [inv] Inv(p) && rule != nil && rule.leader
 //@   modifies PS
-//@   panics [any] true
+//@   panics [ctx C11] Ctx0(p)
 //@   ensures [inv C01] Inv(p)
 //@   ensures [peg-rule C01] DR(rule, p.data, old(p.pt.offset), ok, p.pt.offset, val)
 //@   ensures [shape C01 C08] Shape(p, val, ok)
@@ -675,7 +797,7 @@ package builder
 //@ func (p *parser) parseRuleRecursiveNoLeader(rule *rule) (val any, ok bool)
 //@   requires [inv] Inv(p) && rule != nil
 //@   modifies PS
-//@   panics [any] true
+//@   panics [ctx C11] Ctx0(p)
 //@   ensures [inv C01] Inv(p)
 //@   ensures [peg-rule C01] DR(rule, p.data, old(p.pt.offset), ok, p.pt.offset, val)
 //@   ensures [shape C01] Shape(p, val, ok)
@@ -737,6 +859,7 @@ package builder
 //@   requires [inv] Inv(p) && InRule(p) && IsNode(expr)
 //@   modifies PS
 //@   panics [budget-value C16] old(p.ExprCnt) + 1 > p.maxExprCnt ==> panicval == errMaxExprCnt
+//@   panics [ctx C11] Ctx0(p)
 //@   ensures [inv C01] Inv(p) && InRule(p)
 //@   ensures [peg C01] D(expr, p.data, old(p.pt.offset), ok, p.pt.offset, val)
 //@   ensures [shape C01] Shape(p, val, ok)
@@ -751,7 +874,7 @@ package builder
 //@ func (p *parser) parseExprWrap(expr any) (val any, ok bool)
 //@   requires [inv] Inv(p) && InRule(p) && IsNode(expr)
 //@   modifies PS
-//@   panics [any] true
+//@   panics [ctx C11] Ctx0(p)
 //@   ensures [inv C01] Inv(p) && InRule(p)
 //@   ensures [peg C01 C06] D(expr, p.data, old(p.pt.offset), ok, p.pt.offset, val)
 //@   ensures [shape C01 C06] Shape(p, val, ok)
@@ -775,7 +898,7 @@ package builder
 //@ func (p *parser) parseRule(rule *rule) (val any, ok bool)
 //@   requires [inv] Inv(p) && rule != nil
 //@   modifies PS
-//@   panics [any] true
+//@   panics [ctx C11] Ctx0(p)
 //@   ensures [inv C01] Inv(p)
 //@   ensures [peg-rule C01] DR(rule, p.data, old(p.pt.offset), ok, p.pt.offset, val)
 //@   ensures [shape C01] Shape(p, val, ok)
@@ -789,7 +912,7 @@ package builder
 //@ func (p *parser) parseRuleWrap(rule *rule) (val any, ok bool)
 //@   requires [inv] Inv(p) && rule != nil
 //@   modifies PS
-//@   panics [any] true
+//@   panics [ctx C11] Ctx0(p)
 //@   ensures [inv C01] Inv(p)
 //@   ensures [peg-rule C01 C06] DR(rule, p.data, old(p.pt.offset), ok, p.pt.offset, val)
 //@   ensures [shape C01] Shape(p, val, ok)
@@ -813,7 +936,7 @@ package builder
 //@   requires [inv] Inv(p) && InRule(p) && ref != nil
 //@   requires [budget-in C16] p.ExprCnt <= p.maxExprCnt
 //@   modifies PS
-//@   panics [any] true
+//@   panics [ctx C11] Ctx0(p)
 //@   ensures [inv C01] Inv(p) && InRule(p)
 //@   ensures [peg-ref C01] D(ref, p.data, old(p.pt.offset), ok, p.pt.offset, val)
 //@   ensures [shape C01] Shape(p, val, ok)
@@ -828,7 +951,7 @@ package builder
 //@   requires [inv] Inv(p) && InRule(p) && seq != nil
 //@   requires [budget-in C16] p.ExprCnt <= p.maxExprCnt
 //@   modifies PS
-//@   panics [any] true
+//@   panics [ctx C11] Ctx0(p)
 //@   ensures [inv C01] Inv(p) && InRule(p)
 //@   ensures [peg-seq C01] D(seq, p.data, old(p.pt.offset), ok, p.pt.offset, val)
 //@   ensures [shape C01] Shape(p, val, ok)
@@ -850,7 +973,7 @@ package builder
 //@   requires [inv] Inv(p) && InRule(p) && ch != nil
 //@   requires [budget-in C16] p.ExprCnt <= p.maxExprCnt
 //@   modifies PS
-//@   panics [any] true
+//@   panics [ctx C11] Ctx0(p)
 //@   ensures [inv C01] Inv(p) && InRule(p)
 //@   ensures [peg-choice C01] D(ch, p.data, old(p.pt.offset), ok, p.pt.offset, val)
 //@   ensures [shape C01] Shape(p, val, ok)
@@ -870,7 +993,7 @@ package builder
 //@   requires [inv] Inv(p) && InRule(p) && and != nil
 //@   requires [budget-in C16] p.ExprCnt <= p.maxExprCnt
 //@   modifies PS
-//@   panics [any] true
+//@   panics [ctx C11] Ctx0(p)
 //@   ensures [inv C01] Inv(p) && InRule(p)
 //@   ensures [peg-and C01] D(and, p.data, old(p.pt.offset), ok, p.pt.offset, val)
 //@   ensures [zero-width C01] p.pt == old(p.pt) && val == nil
@@ -886,7 +1009,7 @@ package builder
 //@   requires [inv] Inv(p) && InRule(p) && not != nil
 //@   requires [budget-in C16] p.ExprCnt <= p.maxExprCnt
 //@   modifies PS
-//@   panics [any] true
+//@   panics [ctx C11] Ctx0(p)
 //@   ensures [inv C01] Inv(p) && InRule(p)
 //@   ensures [peg-not C01] D(not, p.data, old(p.pt.offset), ok, p.pt.offset, val)
 //@   ensures [zero-width C01] p.pt == old(p.pt) && val == nil
@@ -903,7 +1026,7 @@ package builder
 //@   requires [inv] Inv(p) && InRule(p) && expr != nil
 //@   requires [budget-in C16] p.ExprCnt <= p.maxExprCnt
 //@   modifies PS
-//@   panics [any] true
+//@   panics [ctx C11] Ctx0(p)
 //@   ensures [inv C01] Inv(p) && InRule(p)
 //@   ensures [peg-opt C01] D(expr, p.data, old(p.pt.offset), ok, p.pt.offset, val)
 //@   ensures [always C01] ok && p.pt.offset >= old(p.pt.offset)
@@ -918,7 +1041,7 @@ package builder
 //@   requires [inv] Inv(p) && InRule(p) && expr != nil
 //@   requires [budget-in C16] p.ExprCnt <= p.maxExprCnt
 //@   modifies PS
-//@   panics [any] true
+//@   panics [ctx C11] Ctx0(p)
 //@   ensures [inv C01] Inv(p) && InRule(p)
 //@   ensures [peg-star C01] D(expr, p.data, old(p.pt.offset), ok, p.pt.offset, val)
 //@   ensures [always C01] ok && p.pt.offset >= old(p.pt.offset)
@@ -939,7 +1062,7 @@ package builder
 //@   requires [inv] Inv(p) && InRule(p) && expr != nil
 //@   requires [budget-in C16] p.ExprCnt <= p.maxExprCnt
 //@   modifies PS
-//@   panics [any] true
+//@   panics [ctx C11] Ctx0(p)
 //@   ensures [inv C01] Inv(p) && InRule(p)
 //@   ensures [peg-plus C01] D(expr, p.data, old(p.pt.offset), ok, p.pt.offset, val)
 //@   ensures [shape C01] Shape(p, val, ok)
@@ -961,7 +1084,7 @@ package builder
 //@   requires [inv] Inv(p) && InRule(p) && lab != nil
 //@   requires [budget-in C16] p.ExprCnt <= p.maxExprCnt
 //@   modifies PS
-//@   panics [any] true
+//@   panics [ctx C11] Ctx0(p)
 //@   ensures [inv C01] Inv(p) && InRule(p)
 //@   ensures [peg-label C01] D(lab, p.data, old(p.pt.offset), ok, p.pt.offset, val)
 //@   ensures [shape C01] Shape(p, val, ok)
@@ -977,7 +1100,7 @@ package builder
 //@   requires [inv] Inv(p) && InRule(p) && act != nil
 //@   requires [budget-in C16] p.ExprCnt <= p.maxExprCnt
 //@   modifies PS
-//@   panics [any] true
+//@   panics [ctx C11] Ctx0(p)
 //@   ensures [inv C01] Inv(p) && InRule(p)
 //@   ensures [peg-action C01] D(act, p.data, old(p.pt.offset), ok, p.pt.offset, val)
 //@   ensures [shape C01] Shape(p, val, ok)
@@ -996,7 +1119,7 @@ package builder
 //@   requires [inv] Inv(p) && InRule(p) && and != nil
 //@   requires [budget-in C16] p.ExprCnt <= p.maxExprCnt
 //@   modifies PS
-//@   panics [any] true
+//@   panics [ctx C11] Ctx0(p)
 //@   ensures [inv C01] Inv(p) && InRule(p)
 //@   ensures [peg-andcode C01] D(and, p.data, old(p.pt.offset), res, p.pt.offset, val)
 //@   ensures [zero-width C01 C02] p.pt == old(p.pt) && val == nil
@@ -1016,7 +1139,7 @@ package builder
 //@   requires [inv] Inv(p) && InRule(p) && not != nil
 //@   requires [budget-in C16] p.ExprCnt <= p.maxExprCnt
 //@   modifies PS
-//@   panics [any] true
+//@   panics [ctx C11] Ctx0(p)
 //@   ensures [inv C01] Inv(p) && InRule(p)
 //@   ensures [peg-notcode C01] D(not, p.data, old(p.pt.offset), res, p.pt.offset, val)
 //@   ensures [zero-width C01 C02] p.pt == old(p.pt) && val == nil
@@ -1036,7 +1159,7 @@ package builder
 //@   requires [inv] Inv(p) && InRule(p) && state != nil
 //@   requires [budget-in C16] p.ExprCnt <= p.maxExprCnt
 //@   modifies PS
-//@   panics [any] true
+//@   panics [ctx C11] Ctx0(p)
 //@   ensures [inv C01] Inv(p) && InRule(p)
 //@   ensures [peg-statecode C01] D(state, p.data, old(p.pt.offset), ok, p.pt.offset, val)
 //@   ensures [zero-width C01 C02] p.pt == old(p.pt) && val == nil && ok
@@ -1054,7 +1177,7 @@ package builder
 //@   requires [inv] Inv(p) && InRule(p) && recover != nil
 //@   requires [budget-in C16] p.ExprCnt <= p.maxExprCnt
 //@   modifies PS
-//@   panics [any] true
+//@   panics [ctx C11] Ctx0(p)
 //@   ensures [inv C01] Inv(p) && InRule(p)
 //@   ensures [peg-recovery C01] D(recover, p.data, old(p.pt.offset), ok, p.pt.offset, val)
 //@   ensures [shape C01] Shape(p, val, ok)
@@ -1071,7 +1194,7 @@ package builder
 //@   requires [inv] Inv(p) && InRule(p) && expr != nil
 //@   requires [budget-in C16] p.ExprCnt <= p.maxExprCnt
 //@   modifies PS
-//@   panics [any] true
+//@   panics [ctx C11] Ctx0(p)
 //@   ensures [inv C01] Inv(p) && InRule(p)
 //@   ensures [peg-throw C01] D(expr, p.data, old(p.pt.offset), ok, p.pt.offset, val)
 //@   ensures [shape C01 C14] Shape(p, val, ok)
